@@ -709,6 +709,121 @@ def selectors_obligation(prop):
                       run, floor=1)
 
 
+# in-place reorderings of a whole list that is used afterwards and that were confirmed by reading (the order is what the following code needs)
+REORDER_BASELINE = {"memthick.process_matches_gpu2cpu": "all_matches.sort(): the greedy assignment walks the candidates by increasing distance",
+                    "memthick.process_matches_cpu2cpu": "flat_matches.sort(): the greedy assignment walks the candidates by increasing distance"}
+
+
+INPLACE_SORT_BASELINE = {"ribana.add_traced_info", "ribana.get_polysome_stats", "structure.NPC.cluster_subunits_to_rings"}  # documented / working tables
+
+ROW_DROP_BASELINE = {("cryomotl.Motl.drop_duplicates", "drop_duplicates"), ("cryomotl.Motl.merge_and_drop_duplicates", "drop_duplicates"),
+                     ("cryomotl.RelionMotl.create_final_output", "drop_duplicates"), ("structure.NPC.compute_diameter", "dropna"),
+                     ("wedgeutils.create_wedge_list_sg", "dropna"), ("wedgeutils.create_wedge_list_sg_batch", "dropna")}
+
+HELPER_UPDATES_BASELINE = {
+    ("cryomotl.RelionMotl.create_relion_df", "cryomotl.RelionMotl.convert_angles_to_relion", "relion_df"),
+    ("cryomotl.StopgapMotl.convert_to_sg_motl", "cryomotl.StopgapMotl.sg_df_reset_index", "stopgap_df"),
+    ("fsc.corrected_fsc", "fsc.substitute_neg_or_nan", "fsc_list"),
+    ("ribana.trace_chains", "ribana.add_chain_prefix", "chain_df"),
+    ("ribana.trace_chains", "ribana.add_chain_suffix", "chain_df"),
+    ("starfileio.Starfile.remove_lines", "starfileio.Starfile.write", "frames"),
+    ("starfileio.Token.*", "starfileio.Token.*", "tokens"),  # the parser cursor: consumed by design, whichever method of the class holds the pop
+    ("starfileio.Starfile.read", "starfileio.Token.*", "tokens"),
+    ("tmana.select_peaks", "tmana.filter_dist_maps", "dist_maps"),
+}
+
+
+def mutations_obligation(prop):
+    """cross-cutting def-use rule: a value that is still in use is not reordered, consumed or overwritten in passing (by a summary, a log line, a sanity
+    check): a part of an array sorted in place, overwrite_input=True, an iterator advanced before its consumer, a loop target that overwrites a live variable"""
+    from sa import dataflow
+    from sa.report import Obligation
+    from .effects_entries import ENTRIES
+
+    def run(ctx):
+        quals = [q for q in ENTRIES[prop] if ctx.prog.has(q)]
+        mods = sorted({q.split(".")[0] for q in quals})
+        n_fn = n_ex = 0
+        undec = []
+        for q, m, fn in ctx.prog.functions():
+            if q.split(".")[0] not in mods:
+                continue
+            n_fn += 1
+            found, und, ex = dataflow.live_mutations(m, fn)
+            n_ex += ex
+            for node, kind, text in found:
+                ctx.finding(q, {"slice-reordered": "part of an array reordered in place", "overwrite-input": "input of a reduction overwritten",
+                                "iterator-advanced": "iterator advanced before its consumer", "loop-rebinds": "loop target overwrites a live variable",
+                                "parameter-truncated": "parameter cut down to a fixed number of elements"}[kind],
+                            text, node, m)
+            undec += [(q, node, text) for node, kind, text in und if q not in REORDER_BASELINE]
+        # a repository helper that updates one of its parameters in place, called with a local of the caller that the caller goes on using: the
+        # sites of today's tree are confirmed (the update is the helper's purpose); a new one is not decided here
+        from sa.plumbing import Resolver, bind_call
+        rs = Resolver(ctx.prog)
+        n_sites = 0
+        for q, m, fn in ctx.prog.functions():
+            if q.split(".")[0] not in mods:
+                continue
+            nodes = dataflow._own_nodes(fn)
+            calls = [c for c in nodes if isinstance(c, ast.Call)]
+            if not calls:
+                continue
+            types = rs._local_types(q, m, fn)
+            loads = [(n.id, n.lineno, n) for n in nodes if isinstance(n, ast.Name) and isinstance(n.ctx, ast.Load)]
+            for c in calls:
+                r = rs.callee(q, m, fn, c, types)
+                if r is None or r[0] == q:
+                    continue
+                try:
+                    _, tfn = ctx.prog.func(r[0])
+                except AnchorMissing:
+                    continue
+                mp = dataflow.mutating_params(tfn)
+                if not mp:
+                    continue
+                bound, _, _ = bind_call(c, tfn, r[1])
+                for p_, how in mp.items():
+                    a = bound.get(p_)
+                    if not isinstance(a, ast.Name):
+                        continue
+                    inside = {id(x) for x in ast.walk(c)}
+                    later = [ln for nm, ln, nd in loads if nm == a.id and ln > c.lineno and id(nd) not in inside]
+                    if later:
+                        n_sites += 1
+                        import fnmatch as _fn
+                        if not any(_fn.fnmatchcase(q, b0) and _fn.fnmatchcase(r[0], b1) and p_ == b2 for b0, b1, b2 in HELPER_UPDATES_BASELINE):
+                            undec.append((q, c, f"`{a.id}` is handed to {r[0]}, which updates its parameter `{p_}` in place ({how}), and is used afterwards (line {later[0]})"))
+        ctx.count(n_sites, {"helper updates of a caller's live local (confirmed sites)": n_sites})
+        # rows dropped in passing: de-duplication / NaN removal of a table outside the confirmed sites (where it is the function's purpose)
+        n_drop = 0
+        for q, m, fn in ctx.prog.functions():
+            if q.split(".")[0] not in mods:
+                continue
+            for c in dataflow._own_nodes(fn):
+                if isinstance(c, ast.Call) and isinstance(c.func, ast.Attribute) and c.func.attr in ("sort_values", "sort_index") and any(
+                        k.arg == "inplace" and isinstance(k.value, ast.Constant) and k.value.value is True for k in c.keywords):
+                    n_drop += 1
+                    if q not in INPLACE_SORT_BASELINE:
+                        undec.append((q, c, f"`{norm_text(c)[:80]}` sorts a table in place in {q}: every holder of that table (the object, the caller) sees the new "
+                                      "row order"))
+                if isinstance(c, ast.Call) and isinstance(c.func, ast.Attribute) and c.func.attr in ("drop_duplicates", "dropna"):
+                    n_drop += 1
+                    if (q, c.func.attr) not in ROW_DROP_BASELINE:
+                        undec.append((q, c, f"`{norm_text(c)[:80]}` removes rows (repeated or incomplete ones) from a table in {q}; particle lists with repeated "
+                                      "values and missing entries are inside the quantifier"))
+        ctx.count(n_drop, {"row-dropping calls (confirmed sites)": n_drop})
+        ctx.count(n_fn, {"modules": mods, "functions scanned": n_fn, "in-place reorderings / iterators / loop targets examined": n_ex,
+                         "confirmed whole-list reorderings": sorted(REORDER_BASELINE)})
+        if undec and not ctx.cur.findings:
+            q, node, text = undec[0]
+            raise Unsupported(f"{q}: {text} -- whether the result depends on it is not decided by this rule", node)
+
+    return Obligation("OX.M", "values still in use are not reordered, consumed or overwritten in passing: no in-place sort of a part of an array, no "
+                              "overwrite_input on a live array, no iterator advanced before its consumer, no loop target overwriting a live variable "
+                              "(def-use, over the property's modules)", run, floor=1)
+
+
 def constructors_obligation(classes, oid="OX.C"):
     """a particle list built from a 20-field table holds exactly that table: every field is the input's field (missing values
     become 0, the index is renumbered), the same particles in the same order"""
